@@ -151,6 +151,13 @@ func (p *Prog) threadInlinedResults() int {
 			}
 		}
 	}
+	if want := os.Getenv("SSTCHECK_DUMPFN"); want != "" {
+		for _, fn := range p.modFns {
+			if FuncKey(fn) == want {
+				fn.WriteTo(os.Stderr)
+			}
+		}
+	}
 	return total
 }
 
@@ -486,6 +493,7 @@ var theProgFns []*ssa.Function
 // block inliner writes such tests (every return of an error leaves on a "failed" and a "succeeded" way); by hand they are
 // rare, and removing an edge that no execution takes changes no verdict that was right.
 func foldDecidedNilTests(fn *ssa.Function) {
+	folded := false
 	for _, b := range fn.Blocks {
 		n := len(b.Instrs)
 		if n == 0 || len(b.Succs) != 2 || b.Succs[0] == b.Succs[1] {
@@ -527,10 +535,8 @@ func foldDecidedNilTests(fn *ssa.Function) {
 			}
 			c = d
 		}
-		if !nonNil {
-			if _, isCall := v.(*ssa.Call); isCall && knownNonNil(v, nil) {
-				nonNil = true
-			}
+		if !nonNil && !isNil && knownNonNil(v, nil) {
+			nonNil = true // a boxed value, a fresh error, a sentinel
 		}
 		if nonNil == isNil {
 			continue
@@ -579,5 +585,82 @@ func foldDecidedNilTests(fn *ssa.Function) {
 		b.Instrs = append(b.Instrs[:n-1:n-1], newJump(b))
 		b.Succs = []*ssa.BasicBlock{keep}
 		delete(domCache, fn)
+		folded = true
+	}
+	if folded {
+		dropUnreachable(fn)
+	}
+}
+
+// dropUnreachable takes the blocks that no path from the entry (or the recover block) reaches any more out of the
+// predecessor lists and phis of the blocks they lead to; they stay in fn.Blocks, without edges.
+func dropUnreachable(fn *ssa.Function) {
+	if len(fn.Blocks) == 0 {
+		return
+	}
+	seen := map[*ssa.BasicBlock]bool{}
+	var st []*ssa.BasicBlock
+	push := func(b *ssa.BasicBlock) {
+		if b != nil && !seen[b] {
+			seen[b] = true
+			st = append(st, b)
+		}
+	}
+	push(fn.Blocks[0])
+	push(fn.Recover)
+	for len(st) > 0 {
+		b := st[len(st)-1]
+		st = st[:len(st)-1]
+		for _, s := range b.Succs {
+			push(s)
+		}
+	}
+	for _, u := range fn.Blocks {
+		if seen[u] {
+			continue
+		}
+		for _, t := range u.Succs {
+			for {
+				j := -1
+				for x, tp := range t.Preds {
+					if tp == u {
+						j = x
+						break
+					}
+				}
+				if j < 0 {
+					break
+				}
+				for _, ins := range t.Instrs {
+					ph, isP := ins.(*ssa.Phi)
+					if !isP {
+						break
+					}
+					if j < len(ph.Edges) {
+						e := ph.Edges[j]
+						ph.Edges = append(ph.Edges[:j:j], ph.Edges[j+1:]...)
+						still := false
+						for _, o := range ph.Edges {
+							if o == e {
+								still = true
+							}
+						}
+						if !still {
+							if rr := e.Referrers(); rr != nil {
+								for x, r := range *rr {
+									if r == ssa.Instruction(ph) {
+										*rr = append((*rr)[:x:x], (*rr)[x+1:]...)
+										break
+									}
+								}
+							}
+						}
+					}
+				}
+				t.Preds = append(t.Preds[:j:j], t.Preds[j+1:]...)
+			}
+		}
+		u.Succs = nil
+		u.Preds = nil
 	}
 }
